@@ -551,6 +551,7 @@ where
             //return Err("Wrong buffersize");
         }
 
+        self.interface.cmd(spi, Command::PartialWindow)?;
         self.shift_display(spi, x, y, width, height)?;
 
         self.interface.cmd(spi, Command::DataStartTransmission2)?;
